@@ -11,6 +11,7 @@ import (
 	"fmt"
 	"go/types"
 	"math"
+	"regexp"
 	"strconv"
 	"strings"
 	"unsafe"
@@ -830,8 +831,15 @@ func (i *interpreter) quoteIf(verb byte, s value) []value {
 }
 
 func goTypeString(t types.Type) string {
-	return types.TypeString(t, func(p *types.Package) string { return p.Name() })
+	s := types.TypeString(t, func(p *types.Package) string { return p.Name() })
+	// reflect.Type.String (what %T prints) writes the empty interface and the
+	// empty struct with a space
+	s = strings.ReplaceAll(s, "interface{}", "interface {}")
+	s = strings.ReplaceAll(s, "struct{}", "struct {}")
+	return anyWord.ReplaceAllString(s, "interface {}")
 }
+
+var anyWord = regexp.MustCompile(`\bany\b`)
 
 // sprintf returns the formatted bytes and the operand of the first %w.
 func (i *interpreter) sprintf(format string, args []value) (out []value, wrapped *iface) {
